@@ -4,7 +4,7 @@ Import ListNotations.
 Require Import NV.C25.Model NV.C25.ProofsBase.
 
 Section Main.
-Variables MM RR EE HH SS : Type.
+Variables MM RR EE HH SS GG : Type.
 Notation St := (St MM RR).
 Variable gstep : nat -> SS -> St -> St.
 Variable estep : nat -> St -> EE -> EE.
@@ -14,6 +14,8 @@ Variable e0 : EE.
 Variable h0 : HH.
 Variable raw : nat -> SS.
 Variable fresh : nat -> bool.
+Variable g0 : GG.
+Variable lstep : nat -> SS -> GG -> St -> St * GG.
 Variable sg : strategy.
 
 (* the seed schedule: iteration i re-uses the seed of the last fresh iteration <= i *)
@@ -45,10 +47,10 @@ Notation load := (load MM RR EE HH).
 Notation touches := (touches MM RR EE HH).
 Notation nperf := (nperf MM RR EE HH).
 Notation pr := fixed_proto.
-Notation loop := (loop MM RR EE HH SS gstep estep hstep h0 raw pr sg).
-Notation run := (run MM RR EE HH SS gstep estep hstep init e0 h0 raw fresh pr sg).
-Notation crashed := (crashed MM RR EE HH SS gstep estep hstep init e0 h0 raw fresh pr sg).
-Notation chain := (chain MM RR EE HH SS gstep estep hstep init e0 h0 raw fresh pr sg).
+Notation loop := (loop MM RR EE HH SS GG gstep estep hstep h0 raw lstep pr sg).
+Notation run := (run MM RR EE HH SS GG gstep estep hstep init e0 h0 raw fresh g0 lstep pr sg).
+Notation crashed := (crashed MM RR EE HH SS GG gstep estep hstep init e0 h0 raw fresh g0 lstep pr sg).
+Notation chain := (chain MM RR EE HH SS GG gstep estep hstep init e0 h0 raw fresh g0 lstep pr sg).
 Notation seed_at := (seed_at SS raw).
 Notation prepare := (prepare SS raw fresh).
 Notation raws := (raws SS raw).
@@ -563,7 +565,7 @@ Proof.
 Qed.
 
 (* ---- the loop ---- *)
-Lemma loop_S : forall sq f i st eh (d : disk), loop sq (S f) i st eh d =
+Lemma loop_S : forall sq f i g st eh (d : disk), loop sq (S f) i g st eh d =
   let st' := gstep i (seed_at sq i) st in
   let eh' := estep i st' eh in
   let o1 := ops1 MM RR EE HH pr sg i st' eh' in
@@ -572,7 +574,7 @@ Lemma loop_S : forall sq f i st eh (d : disk), loop sq (S f) i st eh d =
   match snd rd with
   | Some (PH h) =>
       let o := o1 ++ fst rd ++ ops2 MM RR EE HH pr sg i st' (hstep i st' h) in
-      let r := loop sq f (S i) st' eh' (run_ops o d) in (o ++ fst r, snd r)
+      let r := loop sq f (S i) g st' eh' (run_ops o d) in (o ++ fst r, snd r)
   | _ => (o1 ++ fst rd, Stuck)
   end.
 Proof. reflexivity. Qed.
@@ -598,10 +600,10 @@ Lemma loop_good : forall n sq, (forall k, k < n -> seed_at sq k = sched k) ->
   good n d -> marker_lt i d ->
   (forall j, i = S j -> lookup (MHist (slot j)) d = Some (Valid (PH (th i)))) ->
   lookup RandomState d = Some (Valid PRng) ->
-  snd (loop sq fuel i (tst i) (te i) d) = Ok (tst n) /\
-  forall k lost, good n (crash_raw k lost (fst (loop sq fuel i (tst i) (te i) d)) d).
+  forall g, snd (loop sq fuel i g (tst i) (te i) d) = Ok (tst n) /\
+  forall k lost, good n (crash_raw k lost (fst (loop sq fuel i g (tst i) (te i) d)) d).
 Proof.
-  intros n sq Hsq. induction fuel as [ | fuel IH]; intros i d Hn Hg Hlt Hh Hrng.
+  intros n sq Hsq. induction fuel as [ | fuel IH]; intros i d Hn Hg Hlt Hh Hrng g.
   - simpl. replace i with n by lia. split; [reflexivity | intros; exact Hg].
   - rewrite loop_S. cbv zeta. rewrite (Hsq i) by lia. fold (step i (tst i)).
     rewrite <- tst_S, <- te_S.
@@ -619,9 +621,10 @@ Proof.
     set (ops := iter_all i (tst (S i)) (te (S i)) rd (th (S i))).
     assert (Hi : i < n) by lia.
     destruct (iter_end n i rd d Hreads Hi Hrng) as (Hg' & Hm' & Hh' & Hrng'). fold ops in Hg', Hm', Hh', Hrng'.
-    destruct (IH (S i) (run_ops ops d)) as [IHa IHb]; try assumption; try lia.
-    { intros j Hj. rewrite Hm' in Hj. inversion Hj. lia. }
-    { intros j Hj. inversion Hj. subst j. exact Hh'. }
+    assert (IHx : forall j, S i = S j -> lookup (MHist (slot j)) (run_ops ops d) = Some (Valid (PH (th (S i)))))
+      by (intros j Hj; inversion Hj; subst j; exact Hh').
+    assert (IHm : marker_lt (S i) (run_ops ops d)) by (intros j Hj; rewrite Hm' in Hj; inversion Hj; lia).
+    destruct (IH (S i) (run_ops ops d) ltac:(lia) Hg' IHm IHx Hrng' g) as [IHa IHb].
     cbn [fst snd]. split; [exact IHa | ].
     intros k lost. rewrite crash_raw_app. destruct (k <? nperf ops d).
     + unfold ops. now apply crash_iter_good.
@@ -761,7 +764,7 @@ Proof.
       assert (G3 : forall j', S j = S j' -> lookup (MHist (slot j')) (run_ops o d) = Some (Valid (PH (th (S j)))))
         by (intros j' Hj'; inversion Hj'; subst j'; rewrite Hsame; exact Hmh).
       assert (G4 : lookup RandomState (run_ops o d) = Some (Valid PRng)) by (rewrite Hsame; exact Hrng).
-      destruct (loop_good n sq Hsq (n - S j) (S j) (run_ops o d) G0 G1 G2 G3 G4) as [La Lb].
+      destruct (loop_good n sq Hsq (n - S j) (S j) (run_ops o d) G0 G1 G2 G3 G4 g0) as [La Lb].
       cbn [fst snd].
       * split; [exact La | ]. intros k lost. rewrite crash_raw_app. destruct (k <? nperf o d).
         -- apply (good_same n d); [intros; now apply reads_crash | exact Hg].
@@ -780,7 +783,7 @@ Proof.
     assert (G4 : lookup RandomState (run_ops o d) = Some (Valid PRng))
       by (unfold o; rewrite run_ops_app; apply dump_lookup).
     destruct (prepare_all_sched n) as (sq & Hp & Hsq).
-    destruct (loop_good n sq Hsq n 0 (run_ops o d) (eq_refl _) G1 G2 G3 G4) as [La Lb].
+    destruct (loop_good n sq Hsq n 0 (run_ops o d) (eq_refl _) G1 G2 G3 G4 g0) as [La Lb].
     cbv zeta. fold o. rewrite Hp. cbn [fst snd].
     + split; [exact La | ]. intros k lost. rewrite crash_raw_app. destruct (k <? nperf o d).
       * apply good_none. rewrite crash_raw_frame; [exact Hm | now apply Hto].
@@ -817,3 +820,50 @@ Theorem disk_invariant : forall n r0 cps (d0 : disk), lookup Marker d0 = None ->
   good n (chain n r0 cps d0).
 Proof. intros n r0 cps d0 Hm. apply chain_good; [now apply good_none | intros _; exact Hm]. Qed.
 End Main.
+
+(* ---- the code as it is never reads the process-wide base generator ---- *)
+Section BaseUnused.
+Variables MM RR EE HH SS GG : Type.
+Notation St := (St MM RR).
+Variable gstep : nat -> SS -> St -> St.
+Variable estep : nat -> St -> EE -> EE.
+Variable hstep : nat -> St -> HH -> HH.
+Variable init : St.
+Variable e0 : EE.
+Variable h0 : HH.
+Variable raw : nat -> SS.
+Variable fresh : nat -> bool.
+Variable sg : strategy.
+Variables g0 g0' : GG.
+Variables lstep lstep' : nat -> SS -> GG -> St -> St * GG.
+
+Lemma loop_base_unused : forall sq fuel i g g' st eh d,
+  loop MM RR EE HH SS GG gstep estep hstep h0 raw lstep fixed_proto sg sq fuel i g st eh d =
+  loop MM RR EE HH SS GG gstep estep hstep h0 raw lstep' fixed_proto sg sq fuel i g' st eh d.
+Proof.
+  intros sq. induction fuel as [ | fuel IH]; intros i g g' st eh d; [reflexivity | ].
+  cbn [Model.loop push_first fixed_proto fst snd].
+  destruct (snd match i with
+                | O => ([], Some (PH h0))
+                | S j => load MM RR EE HH (MHist (slot_of sg j))
+                           (run_ops MM RR EE HH
+                              (ops1 MM RR EE HH fixed_proto sg i (gstep i (seed_at SS raw sq i) st)
+                                 (estep i (gstep i (seed_at SS raw sq i) st) eh)) d)
+                end) as [[ | | | | | | h | ] | ]; try reflexivity.
+  rewrite (IH (S i) g g'). reflexivity.
+Qed.
+
+Theorem base_generator_unused : forall r n d,
+  run MM RR EE HH SS GG gstep estep hstep init e0 h0 raw fresh g0 lstep fixed_proto sg r n d =
+  run MM RR EE HH SS GG gstep estep hstep init e0 h0 raw fresh g0' lstep' fixed_proto sg r n d.
+Proof.
+  intros r n d. unfold Model.run.
+  destruct (r && isfile MM RR EE HH Marker d).
+  - destruct (snd (resume_state MM RR EE HH e0 sg n d)) as [[[st eh] i0] | ]; [ | reflexivity].
+    destruct (Nat.eqb i0 n); [reflexivity | ].
+    destruct (prepare SS raw fresh _ _ _); [ | reflexivity].
+    now rewrite (loop_base_unused l (n - i0) i0 g0 g0').
+  - destruct (prepare SS raw fresh n 0 _); [ | reflexivity].
+    now rewrite (loop_base_unused l n 0 g0 g0').
+Qed.
+End BaseUnused.
